@@ -192,6 +192,8 @@ type Conf struct {
 	NoAuto  bool `json:"noauto"`  // retention-autocreate off
 	NoInc   bool `json:"noinc"`   // use-inc-sync-data off
 	NoClean bool `json:"noclean"` // schema-clean-en off
+	Ha      int  `json:"ha,omitempty"`     // ha-policy: 0 write-available-first, 1 shared-storage, 2 replication
+	AzHard  bool `json:"azhard,omitempty"` // replica distribution policy: az-hard instead of node-hard
 }
 
 func newReplicaC(cf Conf) *Replica {
@@ -201,6 +203,13 @@ func newReplicaC(cf Conf) *Replica {
 	c.RetentionAutoCreate = !cf.NoAuto
 	c.UseIncSyncData = !cf.NoInc
 	c.SchemaCleanEn = !cf.NoClean
+	// process-wide switches (every replica of a case is created under the same configuration)
+	_ = config.SetHaPolicy([]string{config.WAFPolicy, config.SSPolicy, config.RepPolicy}[cf.Ha%3])
+	if cf.AzHard {
+		meta2.SetRepDisPolicy(1)
+	} else {
+		meta2.SetRepDisPolicy(0)
+	}
 	return &Replica{fsm: meta.VerifNewFSM(c)}
 }
 
@@ -857,6 +866,10 @@ func genCase(r *gen.Rand, idx int) *Case {
 	cs.Conf = Conf{Expand: r.Chance(1, 2), NoAuto: r.Chance(1, 4), NoInc: r.Chance(1, 4), NoClean: r.Chance(1, 4)}
 	for k := r.Range(1, 4); k > 0; k-- {
 		cs.Batch = append(cs.Batch, r.Range(1, 5))
+	}
+	if r.Chance(1, 3) {
+		cs.Conf.Ha = r.Range(1, 2)
+		cs.Conf.AzHard = r.Chance(1, 3)
 	}
 	curConf = cs.Conf
 	// the generator consults a scratch replica to pick mostly-valid arguments
